@@ -201,6 +201,9 @@ class Normalizer:
                 return {'Add': a + b, 'Sub': a - b, 'Mul': a * b, 'Div': a / b}[op]
             if name == 'core::ops::arith::Neg::neg':
                 return -self.norm(t[2][0])
+            if name.rsplit('::', 1)[-1] == 'mul_add' and ('<impl f64>' in name or '<impl f32>' in name) and len(t[2]) == 3:
+                # a.mul_add(b, c): a * b + c over the reals (fused: one rounding instead of two, which this normal form ignores)
+                return self.norm(t[2][0]) * self.norm(t[2][1]) + self.norm(t[2][2])
             short = name.rsplit('::', 1)[-1]
             if short in MATH and ('<impl f' in name or name.startswith('core::intrinsics::') or 'ops::f' in name):
                 short = {'sinf64': 'sin', 'cosf64': 'cos', 'sqrtf64': 'sqrt', 'floorf64': 'floor', 'ceilf64': 'ceil', 'powf64': 'powf',
